@@ -6,6 +6,9 @@ mod ref_no_context;
 mod resolver;
 mod scanner;
 
+#[cfg(feature = "verif")]
+pub use parser::verif as parser_verif;
+
 use bumpalo::{collections, Bump};
 use laythe_lib::global::ERROR_CLASS_NAME;
 pub use parser::Parser;
